@@ -41,8 +41,22 @@ def _binop(sym):
     return f
 
 
+def _call(L, path, *a, **k):
+    """Any public function by its dotted path below `lentil` (lsim/scenarios/autocalls.py)."""
+    f = L
+    for part in path.split('.'):
+        f = getattr(f, part)
+    return f(*a, **k)
+
+
+def _callm(L, obj, name, *a, **k):
+    return getattr(obj, name)(*a, **k)
+
+
 FNS = {
     # ---- generic
+    'call': _call,
+    'callm': _callm,
     'attr': _attr,
     'setattr': _setattr,
     'np.copy': lambda L, a: np.array(a, copy=True),
